@@ -1665,6 +1665,9 @@ def r_replace_sym(E):
                                       "asymmetric precondition makes one direction of a toggle raise midway")
     rel, fn = pm.find_function("abstract_modeling_classes/object_linked_to_modeling_obj.py",
                                "ObjectLinkedToModelingObj.replace_in_mod_obj_container_without_recomputation")
+    from ..astutil import inlined_view as _iv_s
+    fn = _iv_s(fn, lambda name: (pm.find_method("ObjectLinkedToModelingObj", name)[1] if name not in (
+        "replace_in_mod_obj_container_without_recomputation", "set_modeling_obj_container") else None), rounds=2, max_body=40)
     p = [a.arg for a in fn.args.args]
     me, new = p[0], p[1]
     checked = 0
@@ -2337,6 +2340,10 @@ def r_attach(E):
         f = next((m for m in pm.own_methods(cn) if m.name == "replace_in_mod_obj_container_without_recomputation"), None)
         if f is None:
             continue
+        # (the primitive split into steps of the class — check, store, hand over — reads as the method it was)
+        from ..astutil import inlined_view as _iv_r
+        f = _iv_r(f, lambda name, _c=cn: (pm.find_method(_c, name)[1] if name not in (
+            "replace_in_mod_obj_container_without_recomputation", "set_modeling_obj_container") else None), rounds=2, max_body=40)
         res.instances += 1
         newp = f.args.args[1].arg if len(f.args.args) > 1 else "new_value"
         is_smc = lambda c: isinstance(c, ast.Call) and isinstance(c.func, ast.Attribute) and c.func.attr in (
@@ -2387,6 +2394,9 @@ def r_attach(E):
                 refusing.append(cn)
     rel, f = pm.find_function("abstract_modeling_classes/object_linked_to_modeling_obj.py",
                               "ObjectLinkedToModelingObj.replace_in_mod_obj_container_without_recomputation")
+    from ..astutil import inlined_view as _iv_r2
+    f = _iv_r2(f, lambda name: (pm.find_method("ObjectLinkedToModelingObj", name)[1] if name not in (
+        "replace_in_mod_obj_container_without_recomputation", "set_modeling_obj_container") else None), rounds=2, max_body=40)
     res.instances += 1
     newp = f.args.args[1].arg if len(f.args.args) > 1 else "new_value"
     rank = _so(f)
